@@ -171,15 +171,20 @@ Theorem fai_record_total : forall conv fields, zlen fields = 5 -> safe (fai_reco
 Proof. exact fai_record_total_gen. Qed.
 Print Assumptions fai_record_total.
 
+(** ... and a text line of any shape (the reader on main splits at tabs and checks the count itself). *)
+Theorem fai_line_total : forall conv text, safe (fai_line conv text).
+Proof. exact fai_line_total_gen. Qed.
+Print Assumptions fai_line_total.
+
 (** Record.Position on every in-range position of an accepted record. *)
 Theorem fai_position_value_safe :
   forall conv fields r p, zlen fields = 5 -> fai_record conv fields = Ok r -> 0 <= p < f_len r -> safe (fai_position r p).
 Proof. exact fai_position_value_safe_gen. Qed.
 Print Assumptions fai_position_value_safe.
 
-(** fai.NewIndex (model of the C19 development): an index or one of its four
-    errors on every byte string. (bufio.Scanner's token limit is an error
-    return of the library and is not modelled.) *)
+(** fai.NewIndex (model of the C19 development): an index or one of its
+    errors (including bufio.Scanner's token limit, which that model now has) on
+    every byte string. *)
 Theorem fai_newindex_total : forall file, safe (newindex file).
 Proof. exact fai_newindex_total_gen. Qed.
 Print Assumptions fai_newindex_total.
@@ -231,6 +236,14 @@ Print Assumptions bgzf_member_size_total.
 Theorem bgzf_read_member_total : forall hcrc_ok s, all_bytes s = true -> safe (bgzf_read_member hcrc_ok s).
 Proof. exact bgzf_read_member_total_gen. Qed.
 Print Assumptions bgzf_read_member_total.
+
+(** Reader.Seek after a failed fetch: for every history of Seek calls, every
+    state of the current block (base, has data), every answer of the cache, of
+    the fetch/inflate and of the in-block seek, block.seek is never applied to a
+    block without data. The guard is the expression translated from the source. *)
+Theorem bgzf_seek_after_failed_fetch_total : forall h st, safe (seek_history st h).
+Proof. exact seek_history_safe. Qed.
+Print Assumptions bgzf_seek_after_failed_fetch_total.
 
 (* ------------------------------------------------------------- non-vacuity *)
 
